@@ -361,6 +361,10 @@ pub fn first_violation(events: &[Event], guards: &[String]) -> Option<(usize, St
                 if !matches!(e, Expect::Fail(_)) {
                     st.model.run(tx, s, true);
                     st.after_stmt(s, Some(*k), &e);
+                } else if e == Expect::Fail("write conflict") {
+                    st.sess.remove(k);
+                    st.model.abort(tx);
+                    st.end_session(*k, true);
                 } else {
                     st.poison(tx, std::slice::from_ref(s));
                 }
